@@ -254,3 +254,370 @@ Proof.
     destruct (gen_to_clauses fuel r) as [cr| |]; cbn [rbind] in F; try congruence.
     destruct (llen cl >? 0); discriminate.
 Qed.
+
+(* ------------------------------------------------------------------------------------------ *)
+(** * the double loop of resolution_algorithm *)
+
+Notation loop2 := gen_resolution_algorithm_loop2.
+Notation loop1 := gen_resolution_algorithm_loop1.
+Notation lr_t := (lres (hint * list (list Z)) (bool * hint * list (list Z))).
+
+Lemma hint_set_fresh : forall c s h, hint_mem c h = false -> hint_set c s h = h ++ [(c, s)].
+Proof.
+  intros c s h; induction h as [|[k s0] t IH]; cbn; intros H; [reflexivity|].
+  apply orb_false_iff in H as [H1 H2]. rewrite H1, IH by exact H2. reflexivity.
+Qed.
+
+(** one iteration of the generated inner loop, in the vocabulary of the model *)
+Lemma loop2_unfold : forall F cl1 h l j,
+  loop2 (S F) cl1 h l j =
+  match nth_error l j with
+  | None => Ok (Done (h, l))
+  | Some cl2 =>
+      if clause_eqb cl2 cl1 then Ok (Done (h, l)) else
+      match resolvable cl1 cl2 with
+      | None => loop2 F cl1 h l (S j)
+      | Some (r, rs) =>
+          if hint_mem rs h then loop2 F cl1 h l (S j) else
+          let src := if r <? 0 then HRes cl2 cl1 (- r) else HRes cl1 cl2 r in
+          match rs with
+          | [] => Ok (Ret (true, hint_set rs src h, l))
+          | _ => loop2 F cl1 (hint_set rs src h) (l ++ [rs]) (S j)
+          end
+      end
+  end.
+Proof.
+  intros F cl1 h l j. cbn [gen_resolution_algorithm_loop2].
+  destruct (nth_error l j) as [cl2|]; [|reflexivity].
+  destruct (clause_eqb cl2 cl1); [reflexivity|].
+  rewrite gen_resolvable_agree. cbn [rbind].
+  destruct (resolvable cl1 cl2) as [[r rs]|]; [|reflexivity].
+  destruct (hint_mem rs h); cbn [negb]; [reflexivity|].
+  destruct (r <? 0); destruct rs; reflexivity.
+Qed.
+
+Definition cont (F : nat) (i : nat) (x : res lr_t) : res lr_t :=
+  match x with
+  | Ok (Done (h2, l2)) => loop1 F h2 l2 (S i)
+  | Ok (Ret r) => Ok (Ret r)
+  | Err => Err
+  | Fuel => Fuel
+  end.
+
+Definition fin (x : res lr_t) : res (bool * hint * list (list Z)) :=
+  match x with
+  | Ok (Done (h, l)) => Ok (false, h, l)
+  | Ok (Ret r) => Ok r
+  | Err => Err
+  | Fuel => Fuel
+  end.
+
+Lemma loop1_unfold : forall F h l i,
+  loop1 (S F) h l i =
+  match nth_error l i with
+  | None => Ok (Done (h, l))
+  | Some c => cont F i (loop2 F c h l 0)
+  end.
+Proof.
+  intros F h l i. cbn [gen_resolution_algorithm_loop1].
+  destruct (nth_error l i) as [c|]; [|reflexivity].
+  unfold cont. destruct (loop2 F c h l 0) as [[[h2 l2]|r]| |]; reflexivity.
+Qed.
+
+Lemma gen_ra_fin : forall F h l, gen_resolution_algorithm F h l = fin (loop1 F h l 0).
+Proof.
+  intros. unfold gen_resolution_algorithm, fin. destruct (loop1 F h l 0) as [[[h2 l2]|r]| |]; reflexivity.
+Qed.
+
+Lemma loop2_mono : forall F cl1 h l j x, loop2 F cl1 h l j = Ok x -> forall F', (F <= F')%nat -> loop2 F' cl1 h l j = Ok x.
+Proof.
+  induction F as [|F IH]; intros cl1 h l j x H F' HF; [discriminate|].
+  destruct F' as [|F']; [lia|]. rewrite loop2_unfold in *.
+  destruct (nth_error l j) as [cl2|]; [|exact H].
+  destruct (clause_eqb cl2 cl1); [exact H|].
+  destruct (resolvable cl1 cl2) as [[r rs]|]; [|apply IH with (F' := F') in H; [exact H|lia]].
+  destruct (hint_mem rs h); [apply IH with (F' := F') in H; [exact H|lia]|].
+  cbv zeta in *. destruct rs; [exact H|]. apply IH with (F' := F') in H; [exact H|lia].
+Qed.
+
+Lemma loop1_mono : forall F h l i x, loop1 F h l i = Ok x -> forall F', (F <= F')%nat -> loop1 F' h l i = Ok x.
+Proof.
+  induction F as [|F IH]; intros h l i x H F' HF; [discriminate|].
+  destruct F' as [|F']; [lia|]. rewrite loop1_unfold in *.
+  destruct (nth_error l i) as [c|]; [|exact H].
+  unfold cont in *.
+  destruct (loop2 F c h l 0) as [[[h2 l2]|r]| |] eqn:E2; try discriminate.
+  - rewrite (loop2_mono _ _ _ _ _ _ E2 F') by lia. apply IH with (F' := F') in H; [exact H|lia].
+  - rewrite (loop2_mono _ _ _ _ _ _ E2 F') by lia. exact H.
+Qed.
+
+(** a run of the model's loop is reproduced by the generated loops *)
+Lemma res_loop_to_gen : forall n l h i cl1 j b l' h',
+  res_loop true n l h i cl1 j = Ok (b, l', h') ->
+  forall F1 F2, (n < F1)%nat -> (n < F2)%nat ->
+  fin (cont F2 i (loop2 F1 cl1 h l j)) = Ok (b, h', l').
+Proof.
+  induction n as [|n IH]; intros l h i cl1 j b l' h' H F1 F2 H1 H2; [discriminate|].
+  cbn [res_loop] in H.
+  destruct F1 as [|F1]; [lia|]. rewrite loop2_unfold.
+  assert (Hnext : match nth_error l (S i) with
+                  | Some c => res_loop true n l h (S i) c 0
+                  | None => Ok (false, l, h)
+                  end = Ok (b, l', h') ->
+                  fin (cont F2 i (Ok (Done (h, l)))) = Ok (b, h', l')).
+  { intros Hn. cbn [cont]. destruct F2 as [|F2]; [lia|]. rewrite loop1_unfold.
+    destruct (nth_error l (S i)) as [c|].
+    - apply (IH _ _ _ _ _ _ _ _ Hn); lia.
+    - inversion Hn; subst. reflexivity. }
+  destruct (nth_error l j) as [cl2|]; [|auto].
+  destruct (clause_eqb cl2 cl1); [auto|].
+  destruct (resolvable cl1 cl2) as [[r rs]|]; [|apply (IH _ _ _ _ _ _ _ _ H); lia].
+  destruct (hint_mem rs h) eqn:Em; [apply (IH _ _ _ _ _ _ _ _ H); lia|].
+  rewrite andb_false_r in H. cbv zeta. rewrite (hint_set_fresh _ _ _ Em).
+  destruct rs as [|x rs'].
+  - inversion H; subst. reflexivity.
+  - apply (IH _ _ _ _ _ _ _ _ H); lia.
+Qed.
+
+Lemma resolution_algorithm_to_gen : forall n h l b l' h',
+  resolution_algorithm true n h l = Ok (b, l', h') ->
+  forall F, (S n < F)%nat -> gen_resolution_algorithm F h l = Ok (b, h', l').
+Proof.
+  intros n h l b l' h' H F HF. rewrite gen_ra_fin. destruct F as [|F]; [lia|]. rewrite loop1_unfold.
+  unfold resolution_algorithm in H. destruct l as [|c t].
+  - inversion H; subst. reflexivity.
+  - cbn [nth_error]. apply (res_loop_to_gen _ _ _ _ _ _ _ _ _ H); lia.
+Qed.
+
+Lemma gen_ra_mono : forall F h l x, gen_resolution_algorithm F h l = Ok x ->
+  forall F', (F <= F')%nat -> gen_resolution_algorithm F' h l = Ok x.
+Proof.
+  intros F h l x H F' HF. rewrite gen_ra_fin in *. unfold fin in *.
+  destruct (loop1 F h l 0) as [[[h2 l2]|r]| |] eqn:E; try discriminate;
+    rewrite (loop1_mono _ _ _ _ _ E F' HF); exact H.
+Qed.
+
+(* ------------------------------------------------------------------------------------------ *)
+(** * start_resolution_algorithm *)
+
+Notation loop3 := gen_start_resolution_algorithm_loop3.
+
+Lemma nth_error_enumerate_from : forall (A : Type) (l : list A) k idx,
+  nth_error (enumerate_from k l) idx = option_map (fun c => (k + Z.of_nat idx, c)) (nth_error l idx).
+Proof.
+  intros A l; induction l as [|x t IH]; intros k idx; destruct idx; cbn [enumerate_from nth_error option_map]; try reflexivity.
+  - f_equal. f_equal. lia.
+  - rewrite IH. destruct (nth_error t idx); cbn; [|reflexivity]. f_equal. f_equal. lia.
+Qed.
+
+Lemma skipn_nth : forall (A : Type) (l : list A) idx c, nth_error l idx = Some c -> skipn idx l = c :: skipn (S idx) l.
+Proof.
+  intros A l; induction l as [|x t IH]; intros idx c H; destruct idx; cbn in *; try discriminate.
+  - inversion H; reflexivity.
+  - apply IH. exact H.
+Qed.
+
+Lemma loop3_spec : forall F rl h idx,
+  loop3 F rl h idx = Fuel \/ loop3 F rl h idx = Ok (Done (init_hint (skipn idx rl) (N.of_nat idx) h)).
+Proof.
+  induction F as [|F IH]; intros rl h idx; [left; reflexivity|].
+  cbn [gen_start_resolution_algorithm_loop3]. unfold enumerate. rewrite nth_error_enumerate_from.
+  destruct (nth_error rl idx) as [c|] eqn:En; cbn [option_map].
+  - rewrite gen_is_trivial_agree. cbn [rbind]. rewrite (skipn_nth _ _ _ _ En). cbn [init_hint].
+    replace (N.of_nat idx + 1)%N with (N.of_nat (S idx)) by lia.
+    assert (Eh : hidx (0 + Z.of_nat idx) = HIdx (N.of_nat idx)) by (unfold hidx; f_equal; lia).
+    destruct (is_trivial c); cbn [negb rbind]; [|rewrite Eh]; apply IH.
+  - right. apply nth_error_None in En. rewrite skipn_all2 by lia. reflexivity.
+Qed.
+
+Lemma loop3_fuel : forall F rl h idx, (length rl - idx < F)%nat -> loop3 F rl h idx <> Fuel.
+Proof.
+  induction F as [|F IH]; intros rl h idx H; [lia|].
+  cbn [gen_start_resolution_algorithm_loop3]. unfold enumerate. rewrite nth_error_enumerate_from.
+  destruct (nth_error rl idx) as [c|] eqn:En; cbn [option_map]; [|discriminate].
+  pose proof (nth_error_lt _ _ _ _ En).
+  rewrite gen_is_trivial_agree. cbn [rbind]. destruct (is_trivial c); cbn [negb rbind]; apply IH; lia.
+Qed.
+
+Lemma gen_start_of_model : forall n cls v l h,
+  start_resolution true n cls = Ok (v, l, h) ->
+  forall F, (S n < F)%nat -> (length cls < F)%nat -> gen_start_resolution_algorithm F cls = Ok v.
+Proof.
+  intros n cls v l h H F HF HL. unfold start_resolution in H. unfold gen_start_resolution_algorithm.
+  destruct cls as [|c0 cs'].
+  { inversion H; subst. reflexivity. }
+  cbv iota. cbv zeta.
+  destruct (loop3_spec F (map (fun v_cl => mkset v_cl) (c0 :: cs')) [] 0) as [E|E].
+  { exfalso. revert E. apply loop3_fuel. rewrite map_length. cbn [length] in *. lia. }
+  rewrite E. cbn [rbind skipn N.of_nat].
+  change (map (fun v_cl => mkset v_cl) (c0 :: cs')) with (map mkset (c0 :: cs')).
+  destruct (init_hint (map mkset (c0 :: cs')) 0%N []) as [|e h0'] eqn:Eh.
+  - inversion H; subst. destruct (llen (c0 :: cs') =? 1); reflexivity.
+  - destruct (resolution_algorithm true n (e :: h0') (map fst (e :: h0'))) as [[[b l1] h1]| |] eqn:Er; cbn [rbind] in H;
+      try discriminate.
+    rewrite (resolution_algorithm_to_gen _ _ _ _ _ _ Er F HF). cbn [rbind].
+    destruct b; inversion H; subst; reflexivity.
+Qed.
+
+Lemma loop3_mono : forall F rl h idx x, loop3 F rl h idx = Ok x -> forall F', (F <= F')%nat -> loop3 F' rl h idx = Ok x.
+Proof.
+  intros F rl h idx x H F' HF.
+  destruct (loop3_spec F rl h idx) as [E|E]; [congruence|].
+  destruct (loop3_spec F' rl h idx) as [E'|E']; [|congruence].
+  exfalso.
+  (* F was enough, so is F' *)
+  revert E'. clear E. revert rl h idx x H F' HF.
+  induction F as [|F IH]; intros rl h idx x H F' HF; [discriminate|].
+  destruct F' as [|F']; [lia|].
+  cbn [gen_start_resolution_algorithm_loop3] in *. unfold enumerate in *. rewrite nth_error_enumerate_from in *.
+  destruct (nth_error rl idx) as [c|]; cbn [option_map] in *; [|discriminate].
+  rewrite gen_is_trivial_agree in *. cbn [rbind] in *.
+  destruct (is_trivial c); cbn [negb rbind] in *; eapply IH; eauto; lia.
+Qed.
+
+Lemma gen_start_mono : forall F cls v, gen_start_resolution_algorithm F cls = Ok v ->
+  forall F', (F <= F')%nat -> gen_start_resolution_algorithm F' cls = Ok v.
+Proof.
+  intros F cls v H F' HF. unfold gen_start_resolution_algorithm in *.
+  destruct cls as [|c0 cs']; [exact H|]. cbv iota zeta in *.
+  destruct (loop3 F (map (fun v_cl => mkset v_cl) (c0 :: cs')) [] 0) as [[h5|r]| |] eqn:E3; cbn [rbind] in H; try discriminate.
+  - rewrite (loop3_mono _ _ _ _ _ E3 F' HF). cbn [rbind].
+    destruct h5 as [|e h5']; [exact H|]. cbv iota in *.
+    destruct (gen_resolution_algorithm F (e :: h5') (map fst (e :: h5'))) as [[[b hh] ll]| |] eqn:Er; cbn [rbind] in H;
+      try discriminate.
+    rewrite (gen_ra_mono _ _ _ _ Er F' HF). exact H.
+  - rewrite (loop3_mono _ _ _ _ _ E3 F' HF). exact H.
+Qed.
+
+(* ------------------------------------------------------------------------------------------ *)
+(** * prove_tautology / decide *)
+
+Lemma gen_tcf_ok : forall F p c, gen_to_conj_form F p = Ok c -> c = tcf p.
+Proof. intros F p c H. destruct (gen_to_conj_form_spec F p) as [E|E]; congruence. Qed.
+
+Lemma gen_pn_ok : forall F c n, gen_propag_neg F c = Ok n -> propag_neg c = Some n.
+Proof.
+  intros F c n H. destruct (gen_propag_neg_spec F c false) as [E|E]; cbn [togb] in E; [congruence|].
+  unfold propag_neg. destruct (pn false c); cbn in E; congruence.
+Qed.
+
+Lemma gen_cls_ok : forall F k cls, gen_to_clauses F k = Ok cls -> to_clauses k = Some cls.
+Proof.
+  intros F k cls H. destruct (gen_to_clauses_spec F k) as [E|E]; [congruence|].
+  destruct (to_clauses k); cbn in E; congruence.
+Qed.
+
+(** verdict of the model's start_resolution, as the generated function returns it *)
+Lemma gen_start_ok : forall F cls v, gen_start_resolution_algorithm F cls = Ok v ->
+  forall N, (res_fuel cls <= N)%nat -> exists l h, start_resolution true N cls = Ok (v, l, h).
+Proof.
+  intros F cls v H N HN.
+  destruct (start_resolution true N cls) as [[[v' l] h]| |] eqn:E.
+  - exists l, h. f_equal. f_equal. f_equal.
+    set (F' := Nat.max F (S (S (N + length cls)))).
+    pose proof (gen_start_mono _ _ _ H F' ltac:(unfold F'; lia)) as H1.
+    pose proof (gen_start_of_model _ _ _ _ _ E F' ltac:(unfold F'; lia) ltac:(unfold F'; lia)) as H2.
+    congruence.
+  - exfalso. exact (start_resolution_no_err _ _ _ E).
+  - exfalso. exact (start_resolution_terminates cls N HN E).
+Qed.
+
+Lemma expand_neg : forall f, expand (FNeg f) = k_neg (expand f).
+Proof. reflexivity. Qed.
+
+(** whatever the generated decision function answers, the model answers too (for every sufficiently large model fuel) *)
+Theorem gen_decide_sound : forall F f r, gen_decide F f = Ok r -> exists N, decide true N f = Ok r.
+Proof.
+  intros F f r H. unfold gen_decide, gen_prove_tautology in H.
+  destruct (gen_to_conj_form F (k_neg (expand f))) as [c| |] eqn:Ec; cbn [rbind] in H; try discriminate.
+  apply gen_tcf_ok in Ec. cbv zeta in H.
+  assert (Hdec : forall N, decide true N f =
+                 match c with CBot true => Ok (Some false) | CBot false => Ok (Some true) | _ => decide_tail true N c end).
+  { intros N. unfold decide, to_conj_form. rewrite expand_neg, <- Ec. destruct c as [[|]|? ?|? ? ?|? ? ?]; reflexivity. }
+  destruct (is_CFBot c) eqn:Eb.
+  - exists O. rewrite Hdec. destruct c as [[|]|n i|n a b|n a b]; try discriminate; exact H.
+  - assert (Hd : forall N, decide true N f = decide_tail true N c).
+    { intros N. rewrite Hdec. destruct c as [[|]|n i|n a b|n a b]; try discriminate; reflexivity. }
+    destruct (gen_propag_neg F c) as [nn| |] eqn:En; cbn [rbind] in H; try discriminate.
+    apply gen_pn_ok in En.
+    rewrite gen_to_cnf_agree in H.
+    destruct (to_cnf F nn) as [k| |] eqn:Ek; cbn [rbind] in H; try discriminate.
+    destruct (gen_to_clauses F k) as [cls| |] eqn:Ecl; cbn [rbind] in H; try discriminate.
+    apply gen_cls_ok in Ecl.
+    destruct (gen_start_resolution_algorithm F cls) as [v| |] eqn:Es; cbn [rbind] in H; try discriminate.
+    set (N := Nat.max F (res_fuel cls)).
+    destruct (gen_start_ok _ _ _ Es N ltac:(unfold N; lia)) as (l & h & Em).
+    exists N. rewrite Hd. unfold decide_tail. rewrite En. cbn [of_option rbind].
+    rewrite (to_cnf_mono _ _ _ Ek N ltac:(unfold N; lia)). cbn [rbind].
+    rewrite Ecl. cbn [of_option rbind]. rewrite Em. cbn [rbind fst].
+    destruct v as [[|]|]; cbn in H |- *; congruence.
+Qed.
+
+(** sizes of the intermediate results (only ever stated, never computed) *)
+Definition stage_sizes (f : form) : nat :=
+  let c := to_conj_form (FNeg f) in
+  cheight c +
+  match propag_neg c with
+  | Some n =>
+      match to_cnf (cnf_fuel n) n with
+      | Ok k => cheight k + match to_clauses k with Some cls => length cls | None => 0 end
+      | _ => 0
+      end
+  | None => 0
+  end.
+
+Definition source_fuel (f : form) : nat :=
+  3 + enough_fuel f + kdepth (expand (FNeg f)) + stage_sizes f.
+
+Theorem gen_decide_total : forall f F, (source_fuel f <= F)%nat ->
+  exists r, decide true (enough_fuel f) f = Ok r /\ gen_decide F f = Ok r.
+Proof.
+  intros f F HF. unfold source_fuel in HF.
+  destruct (decide true (enough_fuel f) f) as [r| |] eqn:Ed.
+  2: { exfalso. exact (decide_no_err _ _ _ Ed). }
+  2: { exfalso. exact (decide_terminates f _ (le_n _) Ed). }
+  exists r. split; [reflexivity|].
+  unfold gen_decide, gen_prove_tautology.
+  assert (Ec : gen_to_conj_form F (k_neg (expand f)) = Ok (tcf (k_neg (expand f)))).
+  { destruct (gen_to_conj_form_spec F (k_neg (expand f))) as [E|E]; [|exact E].
+    exfalso. revert E. apply gen_to_conj_form_fuel. rewrite <- expand_neg. lia. }
+  rewrite Ec. cbn [rbind]. cbv zeta.
+  unfold decide, to_conj_form in Ed. rewrite expand_neg in Ed.
+  unfold stage_sizes, to_conj_form in HF. rewrite expand_neg in HF. cbv zeta in HF.
+  set (c := tcf (k_neg (expand f))) in *.
+  assert (Htail : decide_tail true (enough_fuel f) c = Ok r ->
+     (do v_r3 <- gen_propag_neg F c;
+      do v_r5 <- gen_to_cnf F v_r3;
+      do v_r7 <- gen_to_clauses F v_r5;
+      do v_r9 <- gen_start_resolution_algorithm F v_r7;
+      (if match v_r9 with None => true | Some _ => false end then Ok None
+       else match v_r9 with
+            | Some v_proved_true11 => if v_proved_true11 then Ok (Some false) else Ok (Some true)
+            | None => Err
+            end)) = Ok r).
+  { intros Ht.
+    destruct (pipeline_stages _ _ _ _ Ht) as (n & k & cls & [[vd l] h] & En & Ek & Ecl & Ex & Er & Hok & _).
+    rewrite En in HF.
+    destruct (propag_neg_sound (fun _ => false) _ _ En) as [_ Hnnf].
+    destruct (to_cnf_terminates n Hnnf) as (k' & Ek' & _).
+    assert (Hcf : (cnf_fuel n <= enough_fuel f)%nat).
+    { unfold enough_fuel, to_conj_form. rewrite expand_neg. fold c.
+      destruct c as [[|]|? ?|? ? ?|? ? ?] eqn:Ecc; try (unfold decide_tail in Ht; cbn in Ht; discriminate);
+        rewrite En; lia. }
+    assert (k' = k) by (pose proof (to_cnf_mono _ _ _ Ek' _ Hcf); congruence). subst k'.
+    rewrite Ek', Ecl in HF.
+    assert (G1 : gen_propag_neg F c = Ok n).
+    { destruct (gen_propag_neg_spec F c false) as [E|E]; cbn [togb] in E.
+      - exfalso. revert E. apply (gen_propag_neg_fuel c false). lia.
+      - rewrite E. unfold propag_neg in En. rewrite En. reflexivity. }
+    rewrite G1. cbn [rbind]. rewrite gen_to_cnf_agree.
+    rewrite (to_cnf_mono _ _ _ Ek F) by lia. cbn [rbind].
+    assert (G2 : gen_to_clauses F k = Ok cls).
+    { destruct (gen_to_clauses_spec F k) as [E|E].
+      - exfalso. revert E. apply gen_to_clauses_fuel. lia.
+      - rewrite E, Ecl. reflexivity. }
+    rewrite G2. cbn [rbind].
+    rewrite (gen_start_of_model _ _ _ _ _ Ex F) by lia. cbn [rbind].
+    cbn [fst] in Er. subst r. destruct vd as [[|]|]; reflexivity. }
+  destruct c as [[|]|n i|n a b|n a b]; cbn [is_CFBot cf_negated]; auto.
+Qed.
